@@ -2,16 +2,16 @@
    Model: Verif.Schema (types, values, enc_ok, schema_f, defs_f, ty_ok/env_ok), Verif.JValid
    (Draft 2020-12 keyword subset); tuples go through the kernel VerifGen.K6 translated from /repo. *)
 From Coq Require Import List String ZArith Bool.
-From Verif Require Import JValid PyK_tuple K6Proofs TzName Schema C06Proofs C06Final C06Tz.
-From VerifGen Require Import K6.
+From Verif Require Import PyK JValid PyK_tuple K6Proofs TzName Schema C06Proofs C06Final C06Tz K6NProofs.
+From VerifGen Require Import K6 K6N.
 Import ListNotations.
 Open Scope string_scope.
 Close Scope Z_scope.
 
 (* Full-strength statement (every type of the model grammar, no domain restriction): refuted below. *)
 Definition C06_sound_full : Prop :=
-  forall pm E dl ar md ds n t v j m s k,
-    defs_f E dl ar md (classes E) = Some ds -> enc_ok n E t v j = true -> schema_f E dl ar m t = Some s ->
+  forall pm E dl ar md ds n cur base t v j m s k,
+    defs_f E dl ar md (classes E) = Some ds -> enc_ok n E cur base t v j = true -> schema_f E dl ar cur m t = Some s ->
     2 * n + 1 <= k -> jvalid pm ds k s j = true.
 
 (* Soundness on the domain ty_ok / env_ok (= everything except the known findings; fixed tuples
@@ -22,8 +22,8 @@ Theorem C06_sound_partial :
     (forall m, (-1440 < m < 1440)%Z -> pm UTC_PATTERN (tzname m) = true) ->
   forall E dl ar md ds,
     env_ok E = true -> defs_f E dl ar md (classes E) = Some ds ->
-  forall n t v j m m' s k,
-    ty_ok m' E t = true -> enc_ok n E t v j = true -> schema_f E dl ar m t = Some s ->
+  forall n cur base t v j m m' s k,
+    ty_ok m' E cur base t = true -> enc_ok n E cur base t v j = true -> schema_f E dl ar cur m t = Some s ->
     2 * n + 1 <= k -> jvalid pm ds k s j = true.
 Proof. exact C06_sound_thm. Qed.
 Print Assumptions C06_sound_partial.
@@ -48,40 +48,69 @@ Print Assumptions C06_satisfiable.
 
 (* the known findings, exhibited in the model (each: an admissible serialization rejected) *)
 Theorem C06_flag_refuted :
-  enc_ok 5 E_flag (TEnum "F") (VFlag 3) (JInt 3) = true /\
-  exists s, schema_f E_flag dl2020 false 5 (TEnum "F") = Some s /\ jvalid pm_any [] 50 s (JInt 3) = false.
+  enc_ok 5 E_flag false false (TEnum "F") (VFlag 3) (JInt 3) = true /\
+  exists s, schema_f E_flag dl2020 false false 5 (TEnum "F") = Some s /\ jvalid pm_any [] 50 s (JInt 3) = false.
 Proof. exact flag_refuted. Qed.
 Theorem C06_intkey_refuted :
-  enc_ok 5 E0 (TDict TInt TStr) (VDict [(VInt 1, VStr "a")]) (JObj [("1", JStr "a")]) = true /\
-  exists s, schema_f E0 dl2020 false 5 (TDict TInt TStr) = Some s /\ jvalid pm_any [] 50 s (JObj [("1", JStr "a")]) = false.
+  enc_ok 5 E0 false false (TDict TInt TStr) (VDict [(VInt 1, VStr "a")]) (JObj [("1", JStr "a")]) = true /\
+  exists s, schema_f E0 dl2020 false false 5 (TDict TInt TStr) = Some s /\ jvalid pm_any [] 50 s (JObj [("1", JStr "a")]) = false.
 Proof. exact intkey_refuted. Qed.
 Theorem C06_shared_defs_refuted :
-  enc_ok 9 E_same (TData "HP") (VObj [("a", VObj [("v", VInt 1)]); ("b", VObj [("v", VStr "s")])]) doc_same = true /\
-  ty_ok 9 E_same (TData "HP") = true /\
-  (exists s, schema_f E_same dl2020 false 9 (TData "HP") = Some s /\ jvalid pm_any [] 50 s doc_same = true) /\
-  exists s ds, schema_f E_same dl2020 true 9 (TData "HP") = Some s /\ defs_f E_same dl2020 true 9 (classes E_same) = Some ds /\
+  enc_ok 9 E_same false false (TData "HP") (VObj [("a", VObj [("v", VInt 1)]); ("b", VObj [("v", VStr "s")])]) doc_same = true /\
+  ty_ok 9 E_same false false (TData "HP") = true /\
+  (exists s, schema_f E_same dl2020 false false 9 (TData "HP") = Some s /\ jvalid pm_any [] 50 s doc_same = true) /\
+  exists s ds, schema_f E_same dl2020 true false 9 (TData "HP") = Some s /\ defs_f E_same dl2020 true 9 (classes E_same) = Some ds /\
                jvalid pm_any ds 50 s doc_same = false.
 Proof. exact shared_defs_refuted. Qed.
 Theorem C06_set_collision_refuted :
-  all2 (enc_ok 5 E0 (TUnion [TStr; TLeaf "date"])) [VStr "2020-01-01"; VLeaf "2020-01-01"] [JStr "2020-01-01"; JStr "2020-01-01"] = true /\
-  exists s, schema_f E0 dl2020 false 5 t_setu = Some s /\
+  all2 (enc_ok 5 E0 false false (TUnion [TStr; TLeaf "date"])) [VStr "2020-01-01"; VLeaf "2020-01-01"] [JStr "2020-01-01"; JStr "2020-01-01"] = true /\
+  exists s, schema_f E0 dl2020 false false 5 t_setu = Some s /\
             jvalid pm_any [] 50 s (JArr [JStr "2020-01-01"; JStr "2020-01-01"]) = false.
 Proof. exact set_collision_refuted. Qed.
 Theorem C06_init_false_refuted :
-  enc_ok 5 E_init (TData "B") (VObj [("n", VInt 5)]) (JObj [("n", JInt 5)]) = true /\
-  exists s, schema_f E_init dl2020 false 5 (TData "B") = Some s /\ jvalid pm_any [] 50 s (JObj [("n", JInt 5)]) = false.
+  enc_ok 5 E_init false false (TData "B") (VObj [("n", VInt 5)]) (JObj [("n", JInt 5)]) = true /\
+  exists s, schema_f E_init dl2020 false false 5 (TData "B") = Some s /\ jvalid pm_any [] 50 s (JObj [("n", JInt 5)]) = false.
 Proof. exact init_false_refuted. Qed.
+
+(* named tuples as dicts / field override inside containers; omit_none and a required nullable field *)
+Theorem C06_nt_override_container_refuted :
+  enc_ok 9 E_ovc false false (TData "A") v_ovc j_ovc = true /\
+  exists s, schema_f E_ovc dl2020 false false 9 (TData "A") = Some s /\ jvalid pm_any [] 50 s j_ovc = false.
+Proof. exact nt_override_container_refuted. Qed.
+Theorem C06_omit_none_required_refuted :
+  enc_ok 5 E_omit false false (TData "A") (VObj [("x", VNone)]) (JObj []) = true /\
+  exists s, schema_f E_omit dl2020 false false 5 (TData "A") = Some s /\ jvalid pm_any [] 50 s (JObj []) = false.
+Proof. exact omit_none_required_refuted. Qed.
+
+(* the as_dict decision of the serializer and of the schema builder (kernels K6N) equal the model's nt_mode *)
+Theorem C06_nt_mode_schema : forall (c: bool) (ov: option bool),
+  schema_nt_as_dict (KBool c) (enc_ov ov) = Ok (KBool (nt_mode c ov)).
+Proof. exact schema_mode_thm. Qed.
+Print Assumptions C06_nt_mode_schema.
+Theorem C06_nt_mode_pack : forall (c: bool) (ov: option bool),
+  pack_nt_as_dict (KBool c) (enc_ov ov) = Ok (KBool (nt_mode c ov)).
+Proof. exact pack_mode_thm. Qed.
+Print Assumptions C06_nt_mode_pack.
 
 Theorem C06_sound_full_refuted : ~ C06_sound_full.
 Proof.
   intros H. destruct flag_refuted as (He & s & Hs & Hv).
-  rewrite (H pm_any E_flag dl2020 false 5 [] 5 (TEnum "F") (VFlag 3) (JInt 3) 5 s 50 eq_refl He Hs) in Hv; [discriminate|].
+  rewrite (H pm_any E_flag dl2020 false 5 [] 5 false false (TEnum "F") (VFlag 3) (JInt 3) 5 s 50 eq_refl He Hs) in Hv; [discriminate|].
   repeat constructor.
 Qed.
 Print Assumptions C06_sound_full_refuted.
 
 (* non-vacuity: the hypotheses of C06_sound_partial are met by a nested dataclass with alias,
    default, Optional, list of dates, str-keyed dict of fixed tuples, in all_refs mode *)
-Example C06_nonvacuous : env_ok E_nv = true /\ ty_ok 9 E_nv (TData "H") = true /\ enc_ok 9 E_nv (TData "H") v_nv j_nv = true /\
-  (exists s, schema_f E_nv dl2020 true 9 (TData "H") = Some s) /\ (exists ds, defs_f E_nv dl2020 true 9 (classes E_nv) = Some ds).
+Example C06_nonvacuous : env_ok E_nv = true /\ ty_ok 9 E_nv false false (TData "H") = true /\ enc_ok 9 E_nv false false (TData "H") v_nv j_nv = true /\
+  (exists s, schema_f E_nv dl2020 true false 9 (TData "H") = Some s) /\ (exists ds, defs_f E_nv dl2020 true 9 (classes E_nv) = Some ds).
 Proof. exact nonvacuous. Qed.
+
+(* non-vacuity of C06_sound_partial on the constructs added in round 3: a class with namedtuple_as_dict
+   and omit_none, a field override to as_list, a variadic tuple of named tuples, nested Optionals keeping
+   null, a dropped None field; all_refs mode; the document validates *)
+Example C06_nonvacuous_nt_omit : env_ok E_nv2 = true /\ ty_ok 9 E_nv2 false false (TData "S") = true /\
+  enc_ok 9 E_nv2 false false (TData "S") v_nv2 j_nv2 = true /\
+  (exists s ds, schema_f E_nv2 dl2020 true false 9 (TData "S") = Some s /\ defs_f E_nv2 dl2020 true 9 (classes E_nv2) = Some ds /\
+                jvalid pm_any ds 50 s j_nv2 = true).
+Proof. exact nonvacuous2. Qed.
